@@ -136,6 +136,9 @@ type peerGater struct {
 	peerStats map[peer.ID]*peerGaterStats
 	// stats per IP
 	ipStats map[string]*peerGaterStats
+	// number of outbound streams per peer.ID: peers colocated in one IP share a
+	// stats object, so its connected counter cannot tell which of them is gone
+	peerConns map[peer.ID]int
 
 	// for unit tests
 	getIP func(peer.ID) string
@@ -199,6 +202,7 @@ func newPeerGater(ctx context.Context, host host.Host, params *PeerGaterParams, 
 		params:    params,
 		peerStats: make(map[peer.ID]*peerGaterStats),
 		ipStats:   make(map[string]*peerGaterStats),
+		peerConns: make(map[peer.ID]int),
 		host:      host,
 		logger:    logger,
 	}
@@ -387,6 +391,7 @@ func (pg *peerGater) OnNewOutboundStream(p peer.ID, proto protocol.ID) {
 
 	st := pg.getPeerStats(p)
 	st.connected++
+	pg.peerConns[p]++
 }
 
 func (pg *peerGater) OnClosedOutboundStream(p peer.ID) {
@@ -406,12 +411,20 @@ func (pg *peerGater) removePeerStats(p peer.ID, outbound bool) {
 		return
 	}
 
-	if outbound && st.connected > 0 {
-		st.connected--
+	if outbound && pg.peerConns[p] > 0 {
+		pg.peerConns[p]--
+		if st.connected > 0 {
+			st.connected--
+		}
 	}
-	if st.connected == 0 {
-		st.expire = time.Now().Add(pg.params.RetainStats)
+	// the peer's own entry goes when its last outbound stream is gone, even if
+	// another peer behind the same IP keeps the shared stats object alive
+	if pg.peerConns[p] == 0 {
+		delete(pg.peerConns, p)
 		delete(pg.peerStats, p)
+		if st.connected == 0 {
+			st.expire = time.Now().Add(pg.params.RetainStats)
+		}
 	}
 }
 
